@@ -1,4 +1,5 @@
 import Qats.Lemmas.RainflowMain
+import Qats.Lemmas.RainflowGen
 /-!
 # C02 — rainflow counting is the ASTM E1049-85 three-point procedure
 
@@ -73,5 +74,26 @@ published table. -/
 example : countCycles false ([0, -2, 1, -3, 5, -1, 3, -4, 4, -2, 0] : List Rat) =
     some [⟨3, -1/2, 1/2⟩, ⟨4, -1, 1/2⟩, ⟨4, 1, 1⟩, ⟨6, 1, 1/2⟩, ⟨8, 0, 1/2⟩, ⟨8, 1, 1/2⟩, ⟨9, 1/2, 1/2⟩] := by
   decide +kernel
+
+/-! ### the three-point rule is the one written in the source (regenerated on every run) -/
+
+/-- One step of the inner loop of the stack machine, written with the expressions for the ranges X, Y and the mean of Y that
+`rainflow.cycles` forms from the three most recent points (`Qats.Gen.rf_x`, `rf_y`, `rf_m`, regenerated from
+`qats/fatigue/rainflow.py` by the translator on every run): read on when X < Y, a half cycle when Y contains the starting point,
+a full cycle otherwise. -/
+theorem reduce_is_source (p1 p2 p3 : ℝ) (rest : List ℝ) :
+    reduce p1 (p2 :: p3 :: rest) =
+      if Qats.Gen.rf_x p1 p2 p3 < Qats.Gen.rf_y p1 p2 p3 then ⟨[], [], p1 :: p2 :: p3 :: rest⟩
+      else if rest.isEmpty then ⟨[], [⟨Qats.Gen.rf_y p1 p2 p3, Qats.Gen.rf_m p1 p2 p3⟩], [p1, p2]⟩
+      else ⟨⟨Qats.Gen.rf_y p1 p2 p3, Qats.Gen.rf_m p1 p2 p3⟩ :: (reduce p1 rest).full, (reduce p1 rest).half,
+            (reduce p1 rest).stack⟩ :=
+  reduce_is_source' p1 p2 p3 rest
+
+/-- The half cycles counted from the points that remain, written with the source's expressions (`rf_left_range`,
+`rf_left_mean`). -/
+theorem leftovers_is_source (p1 p2 : ℝ) (rest : List ℝ) :
+    leftovers (p1 :: p2 :: rest) =
+      ⟨Qats.Gen.rf_left_range p1 p2, Qats.Gen.rf_left_mean p1 p2⟩ :: leftovers (p2 :: rest) :=
+  leftovers_is_source' p1 p2 rest
 
 end Qats.Props.C02
